@@ -29,6 +29,16 @@ def cases(tier, seed):
 		taxa = [{'parent': None, 'thr': .5, 'report': True}]
 		for val in (0.25, 0.0, 1.0):
 			yield {'taxa': taxa, 'genomes': [0] * n, 'dists': [val] * n, 'N': rnd.choice([1, 3, 10, n, n + 5])}
+	# large reference sets (sizes at which an implementation may switch to a selection algorithm), the rank-N cut-off inside a group of
+	# equidistant references: the list is still the (distance, reference order) prefix
+	for n in ((1000, 1200, 6001) if tier == 'quick' else (1000, 1023, 1024, 1200, 4097, 6001, 20000, 70000)):
+		taxa = [{'parent': None, 'thr': .5, 'report': True}]
+		for N in (1, 2, 3, 5, 10, 25, 100):
+			g1 = rnd.choice([0, 1, N - 1, N // 2])              # references strictly closer than the tie group
+			dists = [rnd.choice([.2, .3, .4, .6]) for _ in range(n)]
+			for i in rnd.sample(range(n), g1):
+				dists[i] = .1
+			yield {'taxa': taxa, 'genomes': [0] * n, 'dists': dists, 'N': N, 'strict': rnd.random() < .5}
 	for _ in range(300 if tier == 'quick' else 5000):
 		nt = rnd.randrange(1, 6)
 		taxa = random_forest(rnd, nt)
@@ -59,5 +69,5 @@ def bounded(tier, seed):
 			if len(failures) >= 3:
 				break
 	return {'tool': 'real get_result_item on tie-heavy float32 distance vectors against sorted(range(n), key=(d, i))[:N]',
-	        'bound': 'all-equal vectors of 9 lengths up to 257; random vectors of <= 130 entries drawn from <= 3 values; tied nearest genomes under different taxa / thresholds; strict and non-strict mode', 'cases': n,
+	        'bound': 'all-equal vectors of 9 lengths up to 257; vectors of 1000..6001 references (..70000 in the thorough tier) whose rank-N cut-off (N = 1..100) lies inside a group of equidistant references; random vectors of <= 130 entries drawn from <= 3 values; tied nearest genomes under different taxa / thresholds; strict and non-strict mode', 'cases': n,
 	        'failures': failures, 'samples': sample}
